@@ -59,8 +59,8 @@ FLOORS = {
                    "assert:loss-none-value": 1200, "assert:loss-sum-value": 150,
                    "assert:loss-mean-uniform": 30, "assert:loss-mean-ragged": 100,
                    "assert:loss-mean-one-convention": 30},
-        "classes": dict({c: 70 for c in OC_CLASSES}, mean_convention_discriminated_on_both_batches=25,
-                        loss_batch_without_any_multi_target_prefix=30, **{c: 70 for c in LOSS_CLASSES}),
+        "classes": dict({c: 70 for c in OC_CLASSES}, mean_convention_discriminated_on_both_batches=8,
+                        loss_batch_without_any_multi_target_prefix=10, **{c: 70 for c in LOSS_CLASSES}),
         "stats": {"prefixes_with_several_targets": 800, "prefixes_without_target": 3000,
                   "target_token_repeated_in_ref": 4000, "hyp_longer_than_ref_pairs": 2000,
                   "brute_pairs": 3500, "form_module": 1000, "unjudged_empty_hyp_pairs": 500,
